@@ -355,6 +355,14 @@ class Interp:
         if st.exc is not None:
             e = st.exc
             if isinstance(e, ast.Call):
+                if isinstance(e.func, ast.Name) and (e.func.id in mi.functions or isinstance(env.get(e.func.id), FuncRef)):
+                    # raise helper(...): the helper builds the exception object
+                    v = self.eval(e, env, mi)
+                    if isinstance(v, ExcValue):
+                        raise RaiseSignal(v.exc_type, st, self.where(st), v.args)
+                    if isinstance(v, Opaque) and v.why.startswith('exception '):
+                        raise RaiseSignal(v.why.split()[1], st, self.where(st), ())
+                    raise AnalysisError(f'raise of a value that is not an exception object at {self.where(st)}: {v!r}')
                 try:
                     args = tuple(self.eval(a, env, mi) for a in e.args if not isinstance(a, ast.Starred))
                 except AnalysisError:
